@@ -86,7 +86,7 @@ type spCfg struct {
 }
 
 type spOp struct {
-	K string `json:"k"` // pod_add pod_del use_pod use_host use_sys use_fit slo kubelet reserve sysqos restart informer be_dir round
+	K string `json:"k"` // pod_add pod_del pod_term use_pod use_host use_sys use_fit slo kubelet reserve sysqos restart informer be_dir round
 
 	Pod     int    `json:"pod,omitempty"`
 	QoS     string `json:"qos,omitempty"`
@@ -439,6 +439,11 @@ func (spEngine) Generate(p *sim.Plan, g *sim.Rng) {
 				return
 			}
 			q := a[g.Intn(len(a))]
+			if g.Bool(0.3) {
+				// graceful delete: the pod keeps running (and keeps its CPUs) until a later pod_del
+				ops = append(ops, spOp{K: "pod_term", Pod: q.id})
+				return
+			}
 			q.alive = false
 			for _, c := range q.cpus {
 				delete(excl, c)
